@@ -108,6 +108,12 @@ func c11Run(c *h.Ctx) {
 		}
 		c11Transport(c, id, c.Rng(id), c.Pick(200_000, 1_500_000))
 	}
+	for k := 0; k < c.Pick(6, 40); k++ {
+		id := fmt.Sprintf("reopen%d", k)
+		if c.Case(id) {
+			c11Reopen(c, id, c.Rng(id))
+		}
+	}
 	for k := 0; k < c.Pick(1, 6); k++ {
 		id := fmt.Sprintf("udp%d", k)
 		if c.Case(id) {
@@ -855,4 +861,168 @@ func c11UDP(c *h.Ctx, id string, r *rand.Rand) {
 	c11Compare(c, id, "udp transport", blocks, sink.Frames(), det)
 	c.Count("transport_blocks", int64(len(blocks)))
 	c.Distinct(fmt.Sprintf("transport|udp|mtu-lowered=%v", lowMTU))
+}
+
+// c11Reopen: one StreamFace object is closed and opened again (an application stopping and
+// restarting its engine on the same face). The blocks the forwarder sends on the second connection
+// must all be handed up, exactly once, in order, and the face must still send.
+func c11Reopen(c *h.Ctx, id string, r *rand.Rand) {
+	dir := filepath.Join(c.WorkDir, fmt.Sprintf("sock-%d", c.Batch))
+	h.MustMkdir(dir)
+	path := filepath.Join(dir, strings.ReplaceAll(id, "/", "_")+".reopen.sock")
+	os.Remove(path)
+	ln, err := net.Listen("unix", path)
+	if err != nil {
+		c.Inconclusive("cannot listen on unix socket: " + err.Error())
+		return
+	}
+	defer ln.Close()
+	defer os.Remove(path)
+	conns := make(chan net.Conn, 4)
+	go func() {
+		for {
+			cn, err := ln.Accept()
+			if err != nil {
+				return
+			}
+			conns <- cn
+		}
+	}()
+	var mu sync.Mutex
+	var got [][]byte
+	f := stdface.NewStreamFace("unix", path, true)
+	// in half of the cases the restart happens (from another goroutine) while the receive loop is
+	// inside the application's packet callback for the last block of the first connection
+	duringCallback := r.Intn(2) == 0
+	inCallback := make(chan struct{}, 1)
+	gate := make(chan struct{})
+	var holdAt atomic.Int32
+	holdAt.Store(-1)
+	f.SetCallback(func(rd enc.ParseReader) error {
+		b, _ := rd.ReadBuf(rd.Length())
+		mu.Lock()
+		got = append(got, append([]byte{}, b...))
+		n := len(got)
+		mu.Unlock()
+		if int32(n) == holdAt.Load() {
+			holdAt.Store(-1)
+			inCallback <- struct{}{}
+			<-gate
+		}
+		return nil
+	}, func(err error) error { return err })
+	mkBlocks := func(n int, tag byte) [][]byte {
+		var out [][]byte
+		for k := 0; k < n; k++ {
+			v := make([]byte, 4+r.Intn(400))
+			r.Read(v)
+			v[0], v[1] = tag, byte(k)
+			out = append(out, tlvwalk.TLV(0x80, v))
+		}
+		return out
+	}
+	waitGot := func(n int) bool {
+		for dl := time.Now().Add(10 * time.Second); time.Now().Before(dl); time.Sleep(200 * time.Microsecond) {
+			mu.Lock()
+			k := len(got)
+			mu.Unlock()
+			if k >= n {
+				return true
+			}
+		}
+		return false
+	}
+	if err := f.Open(); err != nil {
+		c.Inconclusive("cannot open stream face: " + err.Error())
+		return
+	}
+	var srv net.Conn
+	select {
+	case srv = <-conns:
+	case <-time.After(5 * time.Second):
+		c.Inconclusive("no connection accepted")
+		return
+	}
+	first := mkBlocks(2+r.Intn(4), 1)
+	if duringCallback {
+		holdAt.Store(int32(len(first)))
+	}
+	for _, b := range first {
+		srv.Write(b)
+	}
+	if !waitGot(len(first)) {
+		c.Inconclusive("blocks of the first connection did not arrive")
+		return
+	}
+	c.Eval(1)
+	if duringCallback {
+		select {
+		case <-inCallback:
+		case <-time.After(10 * time.Second):
+			c.Inconclusive("the receive loop never reached the callback of the last block")
+			return
+		}
+	}
+	// stop and start again on the same face object; Open may refuse until the old receive loop has
+	// wound down, so the application retries
+	_ = f.Close()
+	reopened := false
+	if duringCallback {
+		reopened = f.Open() == nil
+		close(gate) // the callback returns only now
+	}
+	for dl := time.Now().Add(10 * time.Second); !reopened && time.Now().Before(dl); time.Sleep(time.Duration(r.Intn(300)) * time.Microsecond) {
+		if err := f.Open(); err == nil {
+			reopened = true
+			break
+		}
+	}
+	srv.Close()
+	if !reopened {
+		c.Violation("C11:reopen:face-cannot-be-opened-again", id, "a closed stream face could not be opened again within 10 s", nil)
+		return
+	}
+	var srv2 net.Conn
+	select {
+	case srv2 = <-conns:
+	case <-time.After(5 * time.Second):
+		c.Inconclusive("second connection not accepted")
+		return
+	}
+	defer srv2.Close()
+	time.Sleep(time.Duration(r.Intn(3)) * time.Millisecond)
+	mu.Lock()
+	got = nil
+	mu.Unlock()
+	second := mkBlocks(5+r.Intn(6), 2)
+	for _, b := range second {
+		srv2.Write(b)
+		if r.Intn(3) == 0 {
+			time.Sleep(300 * time.Microsecond)
+		}
+	}
+	arrived := waitGot(len(second))
+	mu.Lock()
+	defer mu.Unlock()
+	det := map[string]any{"blocks_first_connection": len(first), "blocks_second_connection": len(second), "handed_up_after_reopen": len(got)}
+	if !arrived {
+		c.Violation("C11:reopen:blocks-lost-after-reopen", id, fmt.Sprintf("%d blocks were sent to a stream face that had been closed and opened again; %d were handed up within 10 s", len(second), len(got)), det)
+		return
+	}
+	c11Compare(c, id, "stream face after close and re-open", second, got, det)
+	// the face must still send
+	probe := tlvwalk.TLV(0x81, []byte("after-reopen"))
+	if err := f.Send(enc.Wire{probe}); err != nil {
+		c.Violation("C11:reopen:face-cannot-send-after-reopen", id, "Send on the re-opened face fails: "+err.Error(), det)
+		return
+	}
+	srv2.SetReadDeadline(time.Now().Add(5 * time.Second))
+	buf := make([]byte, len(probe))
+	if _, err := io.ReadFull(srv2, buf); err != nil || !bytes.Equal(buf, probe) {
+		c.Violation("C11:reopen:sent-block-not-received", id, "a block sent on the re-opened face did not reach the peer unchanged", det)
+		return
+	}
+	_ = f.Close()
+	c.Count("reopen_cases", 1)
+	c.Distinct(fmt.Sprintf("stream-face|reopen|during-callback=%v", duringCallback))
 }
